@@ -781,16 +781,17 @@ class Fn:
                         elif s.rv[1] == "Ne":
                             d["eq"], d["ne"] = f, t
                         out.append(d)
-        # PartialEq::eq / ne calls
+        # PartialEq::eq / ne and PartialOrd::{lt,le,gt,ge} calls
+        names = {"eq": "Eq", "ne": "Ne", "lt": "Lt", "le": "Le", "gt": "Gt", "ge": "Ge"}
         for c in self.calls:
-            if c.is_("cmp::PartialEq::eq", "cmp::PartialEq::ne") and c.dest is not None:
+            if c.is_("cmp::PartialEq::eq", "cmp::PartialEq::ne", "cmp::PartialOrd::lt", "cmp::PartialOrd::le", "cmp::PartialOrd::gt", "cmp::PartialOrd::ge") and c.dest is not None and len(c.args) == 2:
                 oe = self.outcome_edges(c, passthrough=("Not::not",))
                 if "true" in oe:
-                    d = {"op": "Eq" if c.name == "eq" else "Ne", "a": c.args[0], "b": c.args[1], "stmt": None, "call": c,
+                    d = {"op": names[c.name], "a": c.args[0], "b": c.args[1], "stmt": None, "call": c,
                          "bb": oe["true"][0], "t": oe["true"][1], "f": oe["false"][1]}
                     if c.name == "eq":
                         d["eq"], d["ne"] = d["t"], d["f"]
-                    else:
+                    elif c.name == "ne":
                         d["eq"], d["ne"] = d["f"], d["t"]
                     out.append(d)
         return out
